@@ -257,6 +257,14 @@ func streamVercmp(g *core.G) {
 			case 3:
 				c.Version, d.Version = a.Version+".", a.Version+".0"
 			}
+			if g.R.Chance(1, 4) {
+				// a sign or a letter right after a dot: "1.+3", "1.-2", "1.3a" next to "1.3"
+				n := strconv.Itoa(g.R.Intn(12))
+				base := "1." + g.R.Pick([]string{"", "0."})
+				xs := []string{base + n, base + "+" + n, base + "-" + n, base + n + "a", base + "0" + n, base + n + ".0", base + n + "+", base + "~" + n}
+				c.Version, d.Version = g.R.Pick(xs), g.R.Pick(xs)
+				c.Revision = d.Revision
+			}
 			d.Revision = b.Revision
 			g.Emit("vercmp", append(encVersion(c), encVersion(d)...)...)
 			g.Emit("verless", append(encVersion(c), encVersion(d)...)...)
